@@ -50,7 +50,7 @@ add('C03', ['C03Code', 'C03'], ['corr.code'] + PIPE,
 add('C04', ['C04'], ['corr.extract'],
     'Lean 4 proofs over an event-level model of HTMLExtractor (state machine over tokenizer events) and of the raw-HTML restore: a balanced block is stashed verbatim exactly once and restored unwrapped; events recorded from the real parser are replayed in the model',
     'PARTIAL: the stdlib tokenizer that produces the events is trusted, not modelled (F-C04-1 lives there); blocks starting while `intail`, md_in_html and multi-pass restore are covered by correspondence/search only.')
-add('C05', ['C05Block', 'C05', 'C05Amp', 'C14'], PIPE + ['corr.serializer'],
+add('C05', ['C05Block', 'C05', 'C05Amp', 'C14'], PIPE + ['corr.serializer', 'corr.readers'],
     'Lean 4 proofs: vocabulary/void invariant of every tree the block (and inline) model builds + serializer round-trip theorem (strict reader accepts the output and reads back the tree)',
     'PARTIAL: the composition to the final output string is proved as far as Props/C05*.lean state; the `&`/entity-stash case rests on correspondence. "Entity reference" is read as the code reads it (digit-initial names allowed).')
 add('C06', ['C06Block', 'C06Inline', 'C06'], PIPE,
@@ -77,7 +77,7 @@ add('C12', ['C12', 'C11Census'], [],
 add('C13', ['C13'], ['corr.registry'],
     'Lean 4 refinement proof (registry model refines the registration-log spec for every op history) + op-sequence correspondence with util.Registry',
     'Priorities are modelled as integers (the harness scales binary-fraction floats); NaN priorities and str items are outside the domain.')
-add('C14', ['C14'], ['corr.serializer', 'corr.pipeline'],
+add('C14', ['C14', 'C14Doc', 'C14DocDomain'], ['corr.serializer', 'corr.pipeline', 'corr.readers'],
     'Lean 4 proofs for all strings and trees: escape/read-back, idempotence, entity pass-through, serialise-then-strict-read round trip in both formats, html/xhtml read back equal',
     'Tree level full; document level PARTIAL (the format leaks into stashed HTML through md.serializer inside HtmlInlineProcessor.unescape, toc, md_in_html): checked by correspondence and search. F-C14-1 (void element with text) is a kernel-checked counterexample.')
 add('C15', ['C15', 'C15Inline', 'C15Forms'], PIPE,
